@@ -94,6 +94,32 @@ def seq_job(seq):
     return {"seq": list(seq), "runs": out}
 
 
+BATCH = ["ALB", "AUS", "LUX", "SLV", "USA"]       # ALB and SLV trigger the model's rewrite of known-bad options
+BATCH_PRESET, BATCH_NMONTHS = "ms_example_resilient", 120
+
+
+def batch_job(isos):
+    """one multi-country call (one option dictionary shared by all the countries, as the YAML runner does) in a fresh process"""
+    common.sandbox()
+    import copy
+    from src.scenarios.run_model_no_trade import ScenarioRunnerNoTrade
+    opts = options.clean(options.preset(BATCH_PRESET))
+    opts["NMONTHS"] = BATCH_NMONTHS
+    before = copy.deepcopy(opts)
+    try:
+        with common.quiet():
+            out = ScenarioRunnerNoTrade().run_model_no_trade(title="c14b_%d" % os.getpid(), create_pptx_with_all_countries=False, show_country_figures=False,
+                                                             show_map_figures=False, add_map_slide_to_pptx=False, scenario_option=opts,
+                                                             countries_list=list(isos), return_results=True)
+        runs = {}
+        for iso, res in out[3].items():
+            dg, parts = digest_result(res)
+            runs[iso] = {"digest": dg, "parts": parts}
+        return {"isos": list(isos), "runs": runs, "options_unmodified": opts == before, "aggregate": [repr(float(out[1])), repr(float(out[2]))]}
+    except BaseException as e:
+        return {"isos": list(isos), "error": repr(e)[:200]}
+
+
 def alone_subprocess(idx, hashseed):
     env = {k: v for k, v in os.environ.items() if k != "VERIF_SCRATCH_BASE"}
     env["PYTHONHASHSEED"] = str(hashseed)
@@ -148,12 +174,39 @@ def run(tier, seed):
         elif ref.get(idx, {}).get("digest") != a["digest"]:
             vs.append(violation("result_reproducible_across_processes", {"run": label, "history": "(alone, PYTHONHASHSEED=%s)" % hs},
                                 "%s alone under PYTHONHASHSEED=%s differs from the run alone under 0" % (label, hs), {"seq": [idx]}))
-    cov = {"executions": len(seqs) + len(alone), "states": max(1, len(states)), "transitions": n_runs,
-           "traces_validated_against_impl": len(seqs) + len(alone),
+    # multi-country calls: every country's result inside a batch equals its result from a single-country call
+    kmax = 2 if tier == "quick" else len(BATCH)
+    subsets = [c for n in range(1, kmax + 1) for c in itertools.combinations(BATCH, n)]
+    bres = common.pmap(batch_job, subsets, fresh_process_per_job=True)
+    single = {r["isos"][0]: r for r in bres if len(r["isos"]) == 1}
+    single_by_name = {name: run for r in single.values() for name, run in r.get("runs", {}).items()}   # results are keyed by country name
+    compared = 0
+    for r in bres:
+        key = {"run": "batch %s/%d" % (BATCH_PRESET, BATCH_NMONTHS), "history": ",".join(r["isos"])}
+        rp = {"batch": r["isos"]}
+        if "error" in r:
+            if not any("error" in single.get(i, {}) for i in r["isos"]):
+                vs.append(violation("run_fails_after_history", key, "the multi-country call %s fails although each country runs alone: %s" % (r["isos"], r["error"]), rp))
+            continue
+        if not r["options_unmodified"]:
+            vs.append(violation("options_unmodified", key, "multi-country call %s: caller's option dictionary modified" % (r["isos"],), rp))
+        for iso, run in r["runs"].items():
+            n_runs += 1
+            base = single_by_name.get(iso)
+            compared += 1 if base else 0
+            if base and run["digest"] != base["digest"]:
+                diff = sorted(k for k in set(run["parts"]) | set(base["parts"]) if run["parts"].get(k) != base["parts"].get(k))
+                vs.append(violation("result_independent_of_history", dict(key, run=key["run"] + " " + iso), "%s inside the multi-country call %s differs from the single-country call in: %s (headline %s vs %s)" % (
+                    iso, r["isos"], diff[:6], run["parts"].get("headline"), base["parts"].get("headline")), rp))
+    cov = {"executions": len(seqs) + len(alone) + len(subsets), "states": max(1, len(states)), "transitions": n_runs,
+           "traces_validated_against_impl": len(seqs) + len(alone) + len(subsets),
+           "batches": len(subsets), "batch_results_compared_with_single_calls": compared,
            "distinct_outcomes": len({run.get("digest") for r in res for run in r["runs"]}),
            "runs": n_runs, "histories": len(seqs),
            "bound": {"depth": "every ordered sequence of length <= %d over the pool (repeats allowed), one fresh process each" % d,
-                     "pool": [label_of(p) for p in POOL], "alone": "every pool run alone under PYTHONHASHSEED in %s" % (list(hashseeds),)},
+                     "pool": [label_of(p) for p in POOL], "alone": "every pool run alone under PYTHONHASHSEED in %s" % (list(hashseeds),),
+                     "batches": "every subset of size <= %d of %s in one multi-country call sharing one option dictionary (%s, %d months), each in a fresh process" % (
+                         kmax, BATCH, BATCH_PRESET, BATCH_NMONTHS)},
            "alphabet": "a state is the fingerprint of the process-global settings (Food.conversions) after a run; a transition is one run appended to a history",
            "samples": [{"seq": [label_of(POOL[i]) for i in s]} for s in (seqs[0], seqs[10], seqs[-1])],
            "caps_hit": []}
@@ -161,11 +214,25 @@ def run(tier, seed):
 
 
 def replay(rp):
+    if "batch" in rp:
+        r = common.pmap(batch_job, [tuple(rp["batch"])] + [(i,) for i in rp["batch"]], fresh_process_per_job=True)
+        vs = []
+        if "error" in r[0] or not r[0].get("options_unmodified", True):
+            vs.append(violation("options_unmodified", {"history": ",".join(rp["batch"])}, "batch %s: %s" % (rp["batch"], r[0].get("error", "option dictionary modified")), rp))
+        for k, iso in enumerate(rp["batch"]):
+            for name, b in r[k + 1].get("runs", {}).items():
+                a = r[0].get("runs", {}).get(name)
+                if a and a["digest"] != b["digest"]:
+                    vs.append(violation("result_independent_of_history", {"run": name}, "differs inside the batch: %s vs %s" % (a["parts"].get("headline"), b["parts"].get("headline")), rp))
+        return vs
     r = common.pmap(seq_job, [tuple(rp["seq"]), (rp["seq"][-1],)], fresh_process_per_job=True)
     a, b = r[0]["runs"][-1], r[1]["runs"][0]
+    vs = []
     if a.get("digest") != b.get("digest") or "error" in a:
-        return [violation("result_independent_of_history", {"run": str(rp["seq"][-1])}, "differs: %s vs %s" % (a.get("parts", a), b.get("parts", b)), rp)]
-    return []
+        vs.append(violation("result_independent_of_history", {"run": str(rp["seq"][-1])}, "differs: %s vs %s" % (a.get("parts", a), b.get("parts", b)), rp))
+    if a.get("options_unmodified") is False:
+        vs.append(violation("options_unmodified", {"run": str(rp["seq"][-1])}, "caller's option dictionary modified", rp))
+    return vs
 
 
 if __name__ == "__main__":
